@@ -128,7 +128,7 @@ Section Hostless.
       apply str_eqb_eq in E. unfold IsSpecialScheme in Hnsp. rewrite E, (R_file c R) in Hnsp. discriminate. }
     unfold stable_b in Hst. rewrite Ho in Hst. apply andb_true_iff in Hst. destruct Hst as [Hdp Hst].
     unfold dport_ok in Hdp. rewrite Hport in Hdp. apply N.eqb_eq in Hdp.
-    unfold list_stable in Hst. apply andb_true_iff in Hst. destruct Hst as [Hst _].
+    unfold list_stable in Hst.
     apply andb_true_iff in Hst. destruct Hst as [Hst _]. apply andb_true_iff in Hst. destruct Hst as [Hdots _].
     (* every segment is good *)
     assert (Hgood : forallb (seg_good c false) (u_path u) = true).
